@@ -33,6 +33,8 @@ func runC20(c *Ctx) {
 	c.Doc("R20.5", "the source of every connections.*Con call is not an unsorted map walk")
 	checkArrayIndexBounds(c)
 	checkConnectionInputWiring(c, "R20.10")
+	// the source of allBugs is sorted by a consistent comparator (shared with C12)
+	checkSorters(c)
 	p := w.Pkg("api/graphql/connections")
 	if p == nil {
 		c.Undecided("R20.1", "anchor:api/graphql/connections", "api/graphql/connections", "package not found")
